@@ -88,6 +88,7 @@ def gen_op(rng: random.Random, recs_now, d):
 
 
 class C05(Plugin):
+    keep = qprops.PRIMITIVES   # the methods that define what a converter denotes; derived operations are C03/C06/C07's business
     pid = "C05"
     entry = 5
     prop = 5
@@ -177,7 +178,7 @@ class C05(Plugin):
                     out["outcome impl/model"] = [a[0], b[0]]
                     if a[1][0] != b[1][0]:
                         out["fresh ctor impl/model"] = [a[1][0], b[1][0]]
-                    diffs = [(j, plain(x), plain(y)) for j, (x, y) in enumerate(zip(a[1][1], b[1][1])) if x != y]
+                    diffs = [(j, plain(x), plain(y)) for j, (x, y) in enumerate(zip(a[1][1], b[1][1])) if x != y and x != qprops.WILD]
                     out["answer_diffs(index, impl, model)"] = diffs[:6]
                     break
         return out
